@@ -408,3 +408,151 @@ Example ex_parse :
   parse_serialization_attr "iden3:v1:slotIndexA=a&slotIndexA=b" =
     Ok {| p_index_a := "b"; p_index_b := ""; p_value_a := ""; p_value_b := "" |}.
 Proof. vm_compute. repeat split; reflexivity. Qed.
+
+(* ---------- lookup by type name and by type IRI ---------- *)
+
+Definition is_type_term (t : term) : bool :=
+  t_is_map t && match t_ctx t with Some _ => true | None => false end.
+Definition names_type (t : term) (tp : string) : bool :=
+  String.eqb (t_name t) tp || String.eqb (t_id t) tp.
+
+Lemma loop_name_or_iri : forall ts t names,
+  (forall t', In t' ts -> is_type_term t' = true ->
+     names_type t' (t_name t) = true \/ names_type t' (t_id t) = true -> t' = t) ->
+  ser_attr_loop names ts (t_name t) = ser_attr_loop names ts (t_id t).
+Proof.
+  intros ts t names Huniq. induction names as [|n rest IH]; [reflexivity|].
+  cbn [ser_attr_loop].
+  destruct (find_term n ts) as [t'|] eqn:Ef; [|exact IH].
+  apply find_term_in in Ef. destruct Ef as (Hin & Hn).
+  destruct (t_is_map t') eqn:Em; cbn [negb]; [|exact IH].
+  destruct (t_ctx t') as [sh|] eqn:Ec; [|exact IH].
+  assert (Htt : is_type_term t' = true) by (unfold is_type_term; now rewrite Em, Ec).
+  destruct (String.eqb n (t_name t) || String.eqb (t_id t') (t_name t)
+            || (String.eqb n (t_id t) || String.eqb (t_id t') (t_id t))) eqn:Ematch.
+  - assert (t' = t).
+    { apply Huniq; [exact Hin|exact Htt|]. unfold names_type. rewrite Hn.
+      apply Bool.orb_true_iff in Ematch. destruct Ematch as [E|E]; [left|right]; exact E. }
+    subst t'. rewrite Hn. rewrite !String.eqb_refl. cbn [negb andb orb].
+    rewrite Bool.andb_false_r. reflexivity.
+  - apply Bool.orb_false_iff in Ematch. destruct Ematch as (E1 & E2).
+    apply Bool.orb_false_iff in E1. destruct E1 as (E1a & E1b).
+    apply Bool.orb_false_iff in E2. destruct E2 as (E2a & E2b).
+    rewrite E1a, E1b, E2a, E2b. cbn [negb andb]. exact IH.
+Qed.
+
+(* when the context has one type term only that is called n or identified by
+   iri, looking it up by name and by IRI gives the same attribute, hence the
+   same slot index *)
+Theorem name_or_iri : forall ts t f d,
+  d = SCtx (Some ts) ->
+  (forall t', In t' ts -> is_type_term t' = true ->
+     names_type t' (t_name t) = true \/ names_type t' (t_id t) = true -> t' = t) ->
+  serialization_attr_of_context ts (t_name t) = serialization_attr_of_context ts (t_id t) /\
+  get_field_slot_index f (t_name t) d = get_field_slot_index f (t_id t) d.
+Proof.
+  intros ts t f d -> Huniq.
+  assert (E : serialization_attr_of_context ts (t_name t) = serialization_attr_of_context ts (t_id t))
+    by (unfold serialization_attr_of_context; now apply loop_name_or_iri).
+  split; [exact E|]. unfold get_field_slot_index. now rewrite E.
+Qed.
+
+(* without that condition the two lookups may differ: two terms with one @id *)
+Example ex_alias_types :
+  let ts := [ {| t_name := "T"; t_is_map := true; t_ctx := Some (CtxMap (Some "iden3:v1:slotIndexA=a")); t_id := "urn:T" |};
+              {| t_name := "Aaa"; t_is_map := true; t_ctx := Some (CtxMap (Some "iden3:v1:slotValueB=a")); t_id := "urn:T" |} ] in
+  get_field_slot_index "a" "T" (SCtx (Some ts)) = Ok 2 /\
+  get_field_slot_index "a" "urn:T" (SCtx (Some ts)) = Ok 7.
+Proof. vm_compute. split; reflexivity. Qed.
+
+(* ---------- the attribute grammar: rendering an assignment and parsing it back ---------- *)
+
+Definition set_slot (sp : slots_paths) (i : Z) (p : string) : slots_paths :=
+  if i =? 2 then {| p_index_a := p; p_index_b := p_index_b sp; p_value_a := p_value_a sp; p_value_b := p_value_b sp |}
+  else if i =? 3 then {| p_index_a := p_index_a sp; p_index_b := p; p_value_a := p_value_a sp; p_value_b := p_value_b sp |}
+  else if i =? 6 then {| p_index_a := p_index_a sp; p_index_b := p_index_b sp; p_value_a := p; p_value_b := p_value_b sp |}
+  else {| p_index_a := p_index_a sp; p_index_b := p_index_b sp; p_value_a := p_value_a sp; p_value_b := p |}.
+
+(* `key=path` parts joined by `&` (at least one part) *)
+Definition part_str (kp : Z * string) : string :=
+  (slot_key (fst kp) ++ String "="%char (snd kp))%string.
+Fixpoint render_parts (first : Z * string) (rest : list (Z * string)) : string :=
+  match rest with
+  | [] => part_str first
+  | nx :: more => (part_str first ++ String "&"%char (render_parts nx more))%string
+  end.
+Definition render_attr (first : Z * string) (rest : list (Z * string)) : string :=
+  (ser_prefix ++ render_parts first rest)%string.
+
+Lemma slot_key_clean : forall i, clean (slot_key i).
+Proof.
+  intros i c Hc. unfold slot_key in Hc.
+  destruct (i =? 2); [|destruct (i =? 3); [|destruct (i =? 6)]]; cbn in Hc;
+    repeat (destruct Hc as [<-|Hc]; [split; discriminate|]); contradiction.
+Qed.
+
+Lemma set_path_key : forall sp i p, In i data_slots -> set_path sp (slot_key i) p = Ok (set_slot sp i p).
+Proof.
+  intros sp i p Hin. unfold data_slots in Hin.
+  destruct Hin as [Hi|[Hi|[Hi|[Hi|[]]]]]; subst i; reflexivity.
+Qed.
+
+Lemma str_to_list_app : forall a b : string, str_to_list (a ++ b)%string = (str_to_list a ++ str_to_list b)%list.
+Proof. induction a as [|c t IH]; intros b; [reflexivity|]. cbn. now rewrite IH. Qed.
+
+Lemma part_no_amp : forall kp, clean (snd kp) ->
+  forall c, In c (str_to_list (part_str kp)) -> c <> "&"%char.
+Proof.
+  intros [i p] Hp c Hc. unfold part_str in Hc. cbn [fst snd] in *. rewrite str_to_list_app in Hc. apply in_app_or in Hc.
+  destruct Hc as [Hc|Hc]; [apply (slot_key_clean i c Hc)|].
+  cbn in Hc. destruct Hc as [<-|Hc]; [discriminate|]. apply (Hp c Hc).
+Qed.
+
+Lemma split_render : forall rest first,
+  clean (snd first) -> Forall (fun kp => clean (snd kp)) rest ->
+  split_on "&"%char (render_parts first rest) = map part_str (first :: rest).
+Proof.
+  induction rest as [|nx more IH]; intros first Hf Hr.
+  - cbn [render_parts map]. apply split_on_no_sep. apply part_no_amp. exact Hf.
+  - cbn [render_parts].
+    rewrite split_on_app by (apply part_no_amp; exact Hf).
+    inversion Hr as [|? ? Hn Hm]; subst. rewrite (IH nx Hn Hm). reflexivity.
+Qed.
+
+Lemma parse_parts_render : forall l sp,
+  Forall (fun kp => In (fst kp) data_slots /\ clean (snd kp)) l ->
+  parse_parts (map part_str l) sp =
+  Ok (fold_left (fun acc kp => set_slot acc (fst kp) (snd kp)) l sp).
+Proof.
+  induction l as [|[i p] t IH]; intros sp Hl; [reflexivity|].
+  inversion Hl as [|? ? [Hi Hp] Ht]; subst. cbn [map parse_parts fst snd fold_left] in *.
+  unfold part_str at 1. cbn [fst snd].
+  rewrite (part_splits (slot_key i) p (slot_key_clean i) Hp).
+  rewrite (set_path_key sp i p Hi). cbn [bind]. apply IH. exact Ht.
+Qed.
+
+(* every rendering of at most four well-formed parts parses to the assignment
+   it was rendered from (a repeated key: the last part wins) *)
+Theorem parse_render : forall first rest,
+  Forall (fun kp => In (fst kp) data_slots /\ clean (snd kp)) (first :: rest) ->
+  (List.length rest <= 3)%nat ->
+  parse_serialization_attr (render_attr first rest) =
+  Ok (fold_left (fun acc kp => set_slot acc (fst kp) (snd kp)) (first :: rest) paths_empty).
+Proof.
+  intros first rest Hall Hlen. unfold parse_serialization_attr, render_attr.
+  assert (Es : strip_prefix ser_prefix (ser_prefix ++ render_parts first rest)%string = Some (render_parts first rest))
+    by reflexivity.
+  rewrite Es.
+  inversion Hall as [|? ? [Hi Hp] Hr]; subst.
+  rewrite split_render; [|exact Hp|eapply Forall_impl; [|exact Hr]; intros kp [_ H]; exact H].
+  rewrite map_length. cbn [List.length].
+  destruct (Nat.ltb 4 (S (List.length rest))) eqn:E.
+  - apply Nat.ltb_lt in E. lia.
+  - apply parse_parts_render. exact Hall.
+Qed.
+
+Example ex_render :
+  render_attr (6, "price") [(2, "info.insured")] = "iden3:v1:slotValueA=price&slotIndexA=info.insured" /\
+  parse_serialization_attr (render_attr (6, "price") [(2, "info.insured")]) =
+    Ok {| p_index_a := "info.insured"; p_index_b := ""; p_value_a := "price"; p_value_b := "" |}.
+Proof. vm_compute. split; reflexivity. Qed.
